@@ -432,7 +432,9 @@ pub fn run_campaign<P: Property>(p: &P, tier: Tier, seed: u64) -> RunOutcome {
         for shard in 0..SHARDS {
             hs.push(
                 std::thread::Builder::new()
-                    .stack_size(64 << 20)
+                    // the stack of a main thread (8 MiB): callers of the library run on such stacks, and a larger one
+                    // would hide recursion that is proportional to the input (known finding F27)
+                    .stack_size(8 << 20)
                     .spawn_scoped(sc, move || run_shard(p, tier, seed, shard, cases))
                     .expect("spawn"),
             );
